@@ -128,15 +128,18 @@ def fingerprint(ctx, pool):
     return (tuple(per), eq, leaf_content(ctx))
 
 
-def candidates(n):
+def candidates(n, scenario="leaves"):
     """Pool indices an action may address: both leaves and the two newest members."""
+    if scenario == "leaves-deep":
+        return sorted({1, n - 1, n - 2} & set(range(n)))
     return sorted({0, 1, n - 1, n - 2} & set(range(n)))
 
 
 def actions(n_pool, scenario="leaves"):
     out = []
-    for i in candidates(n_pool):
-        for f in range(len(FACTORY)) if scenario == "leaves" else PROCESSED_FACTORY:
+    for i in candidates(n_pool, scenario):
+        menu = {"leaves": range(len(FACTORY)), "processed": PROCESSED_FACTORY, "leaves-deep": DEEP_FACTORY}[scenario]
+        for f in menu:
             out.append(("f", f, i))
         for e in EVALS:
             out.append(("e", e, i))
@@ -144,13 +147,14 @@ def actions(n_pool, scenario="leaves"):
 
 
 PROCESSED_FACTORY = (2, 5, 0, 1, 8, 9)  # indices into FACTORY used in the 'processed' scenario
+DEEP_FACTORY = (0, 2, 3, 4, 7, 12, 15, 16)  # reduced menu for the deepest tier ('leaves-deep' scenario)
 
 
 class Runner:
     def __init__(self, scenario="leaves"):
         self.ctx = Ctx(world())
         self.scenario = scenario
-        if scenario == "leaves":
+        if scenario in ("leaves", "leaves-deep"):
             self.pool = [self.ctx.leaves["X"], self.ctx.leaves["L"]]
         else:
             self.pool = self.processed_members()
@@ -315,11 +319,12 @@ def _fmt(a):
 
 
 def run(tier, seed):
-    depth = 3 if tier == "quick" else 4
+    depth = 3
     tasks = []
     seconds_all = []
     heads = []
-    for scenario in ("leaves", "processed"):
+    plan = [("leaves", 3), ("processed", 3)] if tier == "quick" else [("leaves", 3), ("processed", 4), ("leaves-deep", 4)]
+    for scenario, depth in plan:
         firsts = [(a,) for a in actions(2, scenario)]
         seconds = []
         for f in firsts:
@@ -342,8 +347,8 @@ def run(tier, seed):
         "traces_validated_against_impl": n,
         "evaluations": n,
         "distinct_nontrivial": sum(r["nontrivial"] for r in results),
-        "history_length_bound": depth,
-        "actions_at_root": {sc: len(actions(2, sc)) for sc in ("leaves", "processed")},
+        "history_length_bound": dict(plan),
+        "actions_at_root": {sc: len(actions(2, sc)) for sc, _ in plan},
         "rule": RULE,
         "exhaustive": True,
         "samples": [" ; ".join(_fmt(a) for a in h) for h in seconds_all[:: max(1, len(seconds_all) // 8)]][:10],
